@@ -287,7 +287,7 @@ func streamReq(c *Ctx) {
 	kinds := []string{"client", "bidi", "unary"}
 	n := 60
 	if c.Thorough() {
-		n = 900
+		n = 2500
 	}
 	specials := [][]byte{[]byte("{}"), []byte("a: b\r\n"), []byte("x")}
 	for _, proto := range protos {
